@@ -24,7 +24,7 @@ RULE = ('cases: seeded histories of <=60 ops (join, leave, re-join, attach, deta
         'type, a re-join, and an empty-listing answer; distinct by (class, op trace) signature.')
 ASSUMPTIONS = ['component classes use identity equality; each component instance belongs to one agent',
                'PositionComponent managed by spatial worlds is outside the claim', 'F1/F2/F3/F6 are known findings (not repaired)']
-FLOORS = {'quick': {'timesteps_cut_short_after_in_step_population_changes': 15, 'rejected_reg_listed': 224, 'rejected_dereg_offline': 311, 'rejected_dereg_new': 604, 'rejected_explicit_calls': 1273, 'listing_comparisons': 20000, 'classA_histories': 381, 'joins': 3000, 'leaves': 1500, 'rejoins': 500,
+FLOORS = {'quick': {'cases_in_mode_optimised': 141, 'redundant_registration_refused_in_a_copy': 649, 'deep_copied_models': 213, 'timesteps_cut_short_after_in_step_population_changes': 15, 'rejected_reg_listed': 224, 'rejected_dereg_offline': 311, 'rejected_dereg_new': 604, 'rejected_explicit_calls': 1273, 'listing_comparisons': 20000, 'classA_histories': 381, 'joins': 3000, 'leaves': 1500, 'rejoins': 500,
                     'empty_answers': 3000, 'leave_shared_type': 500, 'strict_keyerror': 1000, 'migrations': 300, 'big_populations': 8, 'in_step_leaves_observed': 30, 'explicit_reregistration_rejected': 6, 'refused_offmap_joins': 200, 'models_completed_mid_history': 150, 'populated_world_installed_later': 80,
                     'reach:Core.SystemManager.register_component': 2000, 'reach:Core.SystemManager.deregister_component': 1000},
           'thorough': {'listing_comparisons': 1000000, 'classA_histories': 29000}}
@@ -534,8 +534,77 @@ def case_big(ctx, case):
         ctx.sample({'kind': 'big population', 'world': mm.kind, 'agents': n, 'trace': trace[:8]})
 
 
+def case_copy(ctx, case):
+    """A model that is a deep copy of a populated model (a duplicated / restored set-up) is a model like any other: its listings mirror
+    ITS agents, the redundant explicit registration of a listed component is refused, leaving and re-joining work as always - and the
+    original is not affected by what happens in the copy."""
+    import copy as _copy
+    rng = ctx.rng('copy', case['i'])
+    core, envs = _env()
+    K = comp_classes(core)
+    types = K[:4]
+    for rep_ in range(8):
+        mm = MModel(core, envs, rng, 'C0')
+        mm.install_later = False
+        mm.real.environment = mm.env
+        agents = []
+        for j in range(rng.randint(2, 6)):
+            a = core.Agent(f'c{j}', mm.real)
+            for T in types:
+                if rng.random() < 0.5:
+                    a.add_component(T(a, mm.real))
+            agents.append(a)
+        resident = []
+        for a in agents:
+            if rng.random() < 0.8:
+                mm.env.add_agent(a) if mm.kind == 'plain' else mm.env.add_agent(a, 0, 0, 0)
+                resident.append(a)
+
+        def listing_ok(model, res, what):
+            for T in types:
+                exp = [a[T] for a in res if T in a.components]
+                got = model.systems[T]
+                ctx.ev()
+                ctx.count('listing_comparisons')
+                if (got or []) != exp or len(got or []) != len(exp) or any(x is not y for x, y in zip(got or [], exp)) or (not exp and got is not None):
+                    raise CaseViolation(f'{what}: listing of {T.__name__} differs from the components of the resident agents',
+                                        expected=[c.agent.id for c in exp], observed=[c.agent.id for c in (got or [])], world=mm.kind)
+
+        listing_ok(mm.real, resident, 'original model before it was copied')
+        m2, agents2 = _copy.deepcopy((mm.real, agents))
+        env2 = m2.environment
+        res2 = [agents2[agents.index(a)] for a in resident]
+        ctx.count('deep_copied_models')
+        listing_ok(m2, res2, 'deep copy of a populated model')
+        for a in res2:
+            for T in list(a.components):
+                if T in types and rng.random() < 0.5:
+                    try:
+                        m2.systems.register_component(a[T])
+                    except KeyError:
+                        ctx.count('redundant_registration_refused_in_a_copy')
+                    else:
+                        raise CaseViolation('in a deep copy of a model register_component accepted a component that is already listed (documented: KeyError)',
+                                            component=T.__name__, agent=a.id, world=mm.kind)
+        listing_ok(m2, res2, 'deep copy after the refused redundant registrations')
+        for _ in range(rng.randint(1, 4)):
+            if res2 and rng.random() < 0.6:
+                a = rng.choice(res2)
+                env2.remove_agent(a.id)
+                res2.remove(a)
+            else:
+                out = [a for a in agents2 if not any(a is b for b in res2)]
+                if out:
+                    a = rng.choice(out)
+                    env2.add_agent(a) if mm.kind == 'plain' else env2.add_agent(a, 0, 0, 0)
+                    res2.append(a)
+            listing_ok(m2, res2, 'deep copy after agents left / joined')
+        listing_ok(mm.real, resident, 'original model after its copy was used')
+    ctx.distinct(('copy', case['i']))
+
+
 def run_case(ctx, case):
-    (case_big if case.get('kind') == 'big' else case_history)(ctx, case)
+    {'big': case_big, 'copy': case_copy}.get(case.get('kind'), case_history)(ctx, case)
 
 
 def run(ctx):
@@ -545,6 +614,9 @@ def run(ctx):
     for i in range(N_BIG[ctx.tier]):
         if ctx.mine(i) and not ctx.full():
             ctx.run_case({'kind': 'big', 'i': i}, run_case)
+    for i in range(N_HIST[ctx.tier] // 20):
+        if ctx.mine(i) and not ctx.full():
+            ctx.run_case({'kind': 'copy', 'i': i}, run_case)
 
 
 def replay(ctx, case):
